@@ -10,7 +10,7 @@ ASSUMPTIONS = [
     "exhaustive only within the alphabet and bounds listed in coverage.bounds",
 ]
 MENU = ["ins:raise", "ins:caught", "item:err", "item:errf", "item:unset", "flush:raise", "flush:raiseB", "flush:setraise", "leaf:ef", "leaf:lzok", "leaf:lzraise", "leaf:nf", "wrap:try", "shape:T", "shape:D", "shape:nest", "leaf:sh"]
-CATS = ["outcome-mismatch", "error-identity", "resumed-uncomputed", "nonfuture-typeerror", "spurious-error", "schedule-disagree", "value-shape", "started-missing", "hang", "worker-died"]
+CATS = ["outcome-mismatch", "error-identity", "resumed-uncomputed", "nonfuture-typeerror", "spurious-error", "schedule-disagree", "value-shape", "started-missing", "provider-ran-twice", "hang", "worker-died"]
 LADDER = {"quick": [(4, 1, ["call"]), (3, 2, ["call", "av"]), (2, 3, ["call"])], "thorough": [(5, 1, ["call"]), (4, 2, ["call", "av"]), (3, 3, ["call"])]}
 SPEC = {"r1": True, "r2": True}
 
